@@ -247,6 +247,15 @@ fn main() {
             }
         }
     }
+    // the standard sample rates, with frequencies up to 2.5 x the rate (a per-frame step above 2)
+    for rate in [44_100.0f64, 48_000.0, 88_200.0, 96_000.0, 192_000.0, 50_000.0] {
+        let alpha = [0.0, 440.0, rate / 2.0, rate * 1.25, rate * 2.5];
+        for l in 1..=maxl.min(5) {
+            for code in 0..5usize.pow(l as u32) {
+                vars.push((rate, (0..l).map(|j| alpha[(code / 5usize.pow(j as u32)) % 5]).collect(), false));
+            }
+        }
+    }
     vars.par_iter().for_each(|(rate, hzs, dy)| {
         evals.fetch_add(hzs.len() as u64, Relaxed);
         run(json!({"sys":"var","rate":b(*rate),"hzs":hzs.iter().map(|x| b(*x)).collect::<Vec<_>>(),"dyadic":dy}), "osc.panic", &|| var_case(*rate, hzs, *dy));
@@ -274,7 +283,7 @@ fn main() {
     ctx.add_evals(evals.load(Relaxed));
     ctx.set("exhaustive", json!(false));
     ctx.set("exhaustive_scope", json!("finite alphabets of steps / frequency sequences / seeds, enumerated completely; every per-frame sequence over 4 letters to the stated length; all 2^64 seeds and arbitrary real frequencies are not covered"));
-    ctx.rule(&format!("constant frequency: 10 dyadic steps x 3 rates (phase law exact: phase_n == frac(n*step), first phase 0, phase in [0,1)) and 8 non-dyadic (hz, rate) pairs run for {long} frames (tolerance n*2^-50); sine == sin(2 pi phase), saw == 1 - 2 phase, square == +1 for phase < 1/2 else -1, exactly, with the phase taken from an identically constructed Phase run in lock step; all outputs in [-1,1]; per-frame frequency: every sequence over 4 letters of length <= {maxl} (dyadic alphabet at rate 8, audio alphabet at 44100) through rate.hz(instrumented signal): one frequency frame consumed per output frame for phase, sine, saw and square; noise: 9 boundary seeds x 2^20 frames + every 64th seed below {dense}: range, clone/restart reproduce, frame k of noise(s) == frame 0 of noise(s+k); simplex: all multiples of 2^-8 in [0,65536) (quick: the first 2^22) and non-dyadic runs: range, purity; evaluations = frames generated; distinct by configuration"));
+    ctx.rule(&format!("constant frequency: 10 dyadic steps x 3 rates (phase law exact: phase_n == frac(n*step), first phase 0, phase in [0,1)) and 8 non-dyadic (hz, rate) pairs run for {long} frames (tolerance n*2^-50); sine == sin(2 pi phase), saw == 1 - 2 phase, square == +1 for phase < 1/2 else -1, exactly, with the phase taken from an identically constructed Phase run in lock step; all outputs in [-1,1]; per-frame frequency: every sequence over 4 letters of length <= {maxl} (dyadic alphabet at rate 8, audio alphabet at 44100; and over {{0, 440, rate/2, 1.25 rate, 2.5 rate}} to length 5 at 44100, 48000, 88200, 96000, 192000 and 50000 Hz) through rate.hz(instrumented signal): one frequency frame consumed per output frame for phase, sine, saw and square; noise: 9 boundary seeds x 2^20 frames + every 64th seed below {dense}: range, clone/restart reproduce, frame k of noise(s) == frame 0 of noise(s+k); simplex: all multiples of 2^-8 in [0,65536) (quick: the first 2^22) and non-dyadic runs: range, purity; evaluations = frames generated; distinct by configuration"));
     ctx.sample(json!({"sys":"var","rate":b(8.0),"hzs":[b(6.0), b(20.0), b(0.0), b(1.0)],"dyadic":true}));
     ctx.sample(json!({"sys":"noise","seed":"4294967295","frames":1048576}));
     ctx.assume("seeds with seed + frames >= 2^64 are excluded: the internal counter then overflows (a panic in debug builds, a wrap in release), which the property does not speak about");
